@@ -47,3 +47,38 @@ Example C02_tie_break :
   omap t_id (get_next (run cfg_inmem ops)) = Some "t2"
   /\ omap t_id (get_next (run cfg_inmem (ops ++ [OCancel false (T 0 true) "t2"]))) = Some "t3".
 Proof. vm_compute. split; reflexivity. Qed.
+
+(* ---- the concrete in-memory repository: container/heap + Index hooks + ordered map (Heap.v) ---- *)
+From GK Require Import Heap.
+From GK.Proofs Require Import HeapProofs.
+
+(* sortabletask.Less is a strict total order on elements with distinct insertion numbers *)
+Theorem C02_less_total : forall a b, it_ins a <> it_ins b -> iless a b = true \/ iless b a = true.
+Proof. exact iless_total. Qed.
+Print Assumptions C02_less_total.
+
+(* REFINEMENT: under the representation invariant every in-memory operation, executed on the concrete heap /
+   map / counter exactly as the Go code does (Push, Fix(Index), Remove(Index), Peek), returns what the
+   specification returns and re-establishes the invariant; no slice index or stale Index is ever out of range *)
+Theorem C02_inmem_refines : forall c s o, Rep c s -> op_ok s o -> inmem_op o = true ->
+  let (c', r) := cstep c o in let (s', r') := step cfg_inmem s o in r = r' /\ Rep c' s'.
+Proof. exact cstep_refines. Qed.
+Print Assumptions C02_inmem_refines.
+Theorem C02_inmem_no_fault : forall c s o, Rep c s -> op_ok s o -> cstep_opt c o <> None.
+Proof. exact cstep_no_fault. Qed.
+Print Assumptions C02_inmem_no_fault.
+
+(* hence for every history: the concrete repository's outputs ARE the specification's outputs (in particular
+   every GetNext is the minimum proved above), and in every reachable state the stored Index is the true heap
+   position, the heap order holds and no element is in the heap twice *)
+Theorem C02_inmem_outputs : forall ops, ops_ok cfg_inmem [] ops -> forallb inmem_op ops = true ->
+  coutputs cinit ops = outputs cfg_inmem [] ops.
+Proof. exact concrete_outputs. Qed.
+Print Assumptions C02_inmem_outputs.
+Theorem C02_heap_invariant : forall ops, ops_ok cfg_inmem [] ops -> forallb inmem_op ops = true ->
+  let h := c_hp (crun ops) in
+  (forall k, (k < hlen h)%nat -> it_index (ent h k) = Z.of_nat k)
+  /\ (forall k, (0 < k < hlen h)%nat -> iless (ent h k) (ent h (par k)) = false)
+  /\ NoDup (harr h).
+Proof. exact crun_index_ok. Qed.
+Print Assumptions C02_heap_invariant.
